@@ -1,6 +1,7 @@
 package main
 
 import (
+	"sort"
 	"fmt"
 	"go/ast"
 	"go/token"
@@ -116,12 +117,29 @@ func (st *State) runLoop(lp *loopParts) []Outcome {
 	pre := st.clone()
 	// 3. havoc
 	h := st.clone()
+	// (deterministic order: the numbering of fresh symbols must not depend on map iteration, or the same
+	// obligation would reach the solvers in different shapes from run to run)
+	var robjs []types.Object
 	for obj := range rec.vars {
+		robjs = append(robjs, obj)
+	}
+	sort.Slice(robjs, func(i, j int) bool {
+		if robjs[i].Pos() != robjs[j].Pos() {
+			return robjs[i].Pos() < robjs[j].Pos()
+		}
+		return robjs[i].Name() < robjs[j].Name()
+	})
+	for _, obj := range robjs {
 		if _, live := st.vars[obj]; live {
 			h.vars[obj] = h.freshVal(obj.Name(), h.subst(obj.Type()))
 		}
 	}
+	var rghosts []string
 	for g := range rec.ghosts {
+		rghosts = append(rghosts, g)
+	}
+	sort.Strings(rghosts)
+	for _, g := range rghosts {
 		if v, ok := st.ghost[g]; ok && !strings.HasPrefix(g, "$") {
 			h.ghost[g] = h.freshLike(g, v)
 		}
